@@ -233,7 +233,7 @@ func vC12Plugin(c *vC12Cfg, me int) *Plugin {
 
 var vC12ExecClasses = []string{
 	"none", "none", "none", "messages", "messages-empty", "commitreports", "nonces", "tokendata", "costly",
-	"disc-dest", "disc-own", "disc-name", "malformed",
+	"disc-dest", "disc-own", "disc-name", "malformed", "unknown-chain",
 }
 
 func TestVerif_C12_exec(t *testing.T) {
@@ -262,6 +262,9 @@ func TestVerif_C12_exec(t *testing.T) {
 		}
 		if bad == "commitreports" || (malformed && r.Bool()) {
 			crChains = vC12Dedup(append(crChains, vPick(r, []uint64{5, 6})))
+		}
+		if bad == "unknown-chain" && r.Chance(1, 3) {
+			crChains = vC12Dedup(append(crChains, 77)) // a chain without configured F
 		}
 		if len(crChains) > 0 {
 			obs.CommitReports = exectypes.CommitObservations{}
@@ -352,6 +355,16 @@ func TestVerif_C12_exec(t *testing.T) {
 			toks = append(toks, kc{vPick(r, unread), r.Range(1, 2)})
 		case "nonces":
 			nonces = append(nonces, kc{vPick(r, []uint64{5, 6}), r.Range(1, 2)})
+		case "unknown-chain":
+			// keys of chains without configured F, empty inner maps: rejected since F13d although no role is violated
+			switch r.Intn(3) {
+			case 0:
+				msgs = append(msgs, kc{77, 0})
+			case 1:
+				toks = append(toks, kc{77, 0})
+			default:
+				nonces = append(nonces, kc{77, 0}) // nonce keys are not checked
+			}
 		}
 		dedupKC := func(xs []kc) []kc {
 			seen := map[uint64]bool{}
